@@ -3,6 +3,7 @@ package harness
 import (
 	"bytes"
 	"fmt"
+	"strings"
 	"time"
 
 	"go.nanomsg.org/mangos/v3"
@@ -157,7 +158,24 @@ func c17Run(w *W) {
 	}
 	w.Sleep(2 * time.Millisecond)
 	w.Settle()
+	resetAt := -1
+	if tran != "inproc" && nrecv >= 2 && w.Choose(simrt.SShape, 3) == 0 {
+		resetAt = w.Choose(simrt.SShape, nmsg)
+		w.SetShape("reset_at", resetAt)
+	}
 	for i := 0; i < nmsg && !w.Failed(); i++ {
+		if i == resetAt {
+			// one subscriber's connection fails while messages shared with the
+			// other subscribers may still sit in its send queue / be in a write
+			for _, c := range curNet.conns {
+				if strings.HasPrefix(c.local.String(), "client:") && !c.IsClosed() {
+					w.Op("connection %s is reset", c.local)
+					w.Fault("reset")
+					c.Reset()
+					break
+				}
+			}
+		}
 		sz := c17Sizes[w.Choose(simrt.SProg, len(c17Sizes))]
 		body := patBody(fmt.Sprintf("m%d", i), sz)
 		m := mangos.NewMessage(len(body))
@@ -233,6 +251,12 @@ func c17Run(w *W) {
 		}
 	}
 	// failed sends leave the message with the caller, intact
+	if w.Choose(simrt.SProg, 3) == 0 {
+		c17ReplyTimeout(w)
+		if w.Failed() {
+			return
+		}
+	}
 	failKinds := []string{"timeout", "closed", "unsupported", "nopeers"}
 	fk := failKinds[w.Choose(simrt.SProg, len(failKinds))]
 	var fs mangos.Socket
@@ -284,4 +308,67 @@ func c17Run(w *W) {
 
 func init() {
 	register(&Scenario{Name: "ownership", Prop: "C17", Horizon: time.Hour, Run: c17Run})
+}
+
+// c17ReplyTimeout: REP / RESPONDENT / XREP with a send deadline and a
+// requester that stops reading: once the pipe's send queue is full the reply's
+// Send times out, and the reply must still be the caller's, intact.
+func c17ReplyTimeout(w *W) {
+	kind := []string{"rep", "respondent", "xrep", "xrespondent"}[w.Choose(simrt.SProg, 4)]
+	mn := w.UseMsgNet()
+	addr := w.Addr("msg")
+	mn.Endpoint(addr).SendCap = 1
+	s := w.Sock(kind)
+	defer s.Close()
+	mustSet(w, s, mangos.OptionWriteQLen, 1)
+	mustSet(w, s, mangos.OptionSendDeadline, time.Millisecond)
+	mustSet(w, s, mangos.OptionRecvDeadline, 5*time.Millisecond)
+	if err := s.Listen(addr); err != nil {
+		return
+	}
+	p := mn.Connect(addr)
+	w.Settle()
+	timeouts := 0
+	for i := 0; i < 7 && !w.Failed(); i++ {
+		p.Inject(inbound(kind, uint32(i+1), fmt.Sprintf("q%d", i)))
+		w.Settle()
+		rc := w.Do("RecvMsg", func() (interface{}, error) { return s.RecvMsg() })
+		rc.Wait(20 * time.Millisecond)
+		w.Settle()
+		if !rc.Returned() || rc.Err != nil {
+			return
+		}
+		req := rc.Val.(*mangos.Message)
+		body := patBody(fmt.Sprintf("reply%d", i), c17Sizes[w.Choose(simrt.SProg, 12)])
+		m := mangos.NewMessage(len(body))
+		m.Body = append(m.Body, body...)
+		if isRaw(kind) {
+			m.Header = append(m.Header, req.Header...)
+		}
+		hdr := append([]byte(nil), m.Header...)
+		req.Free()
+		c := w.Do("SendMsg(reply)", func() (interface{}, error) { return nil, s.SendMsg(m) })
+		c.Wait(20 * time.Millisecond)
+		w.Settle()
+		if !c.Returned() {
+			w.Failf("C18/late", "%s reply Send with 1ms deadline pending", kind)
+			return
+		}
+		if c.Err != nil {
+			timeouts++
+			w.Probe("failed-send-reply-timeout")
+			// allocate around the same classes: a wrongly released buffer would be handed out again
+			for j := 0; j < 3; j++ {
+				x := mangos.NewMessage(len(body))
+				x.Body = append(x.Body, patBody("scratch", len(body))...)
+				defer x.Free()
+			}
+			if rc := mangos.VerifRefcnt(m); rc != 1 || !bytes.Equal(m.Body, body) || (len(hdr) > 0 && isRaw(kind) && !bytes.Equal(m.Header, hdr)) {
+				w.Failf("C17/failed-send-damaged-message:"+kind, "%s SendMsg of a reply failed with %v (stalled requester, full queue); the caller's message now has owner count %d, body %q (was %q)", kind, c.Err, rc, clip(m.Body), clip(body))
+				return
+			}
+			m.Free()
+		}
+	}
+	_ = timeouts
 }
